@@ -329,4 +329,72 @@ def sampleUnordered : List In :=
   [.op 2 .enableR, .op 3 .enableW, .op 4 .enableR, .iter [(4, 1), (2, 1), (3, 4)] 3, .op 3 .disableAll,
    .op 3 .remove, .iter [(4, 16), (2, 1)] 2]
 
+/-! ### the ghost flag `blind` is visible in the trace -/
+
+/-- the trace contains an `enable*/disable*` that left an unregistered channel without interest (F21) -/
+def BlindInTrace (out : List Ev) : Prop :=
+  ∃ pre c k i post, out = pre ++ .op c k 0 i :: post ∧ k.isUpdate = true ∧ histAdded c pre = false
+
+theorem BlindInTrace.append {out : List Ev} (h : BlindInTrace out) (l : List Ev) : BlindInTrace (out ++ l) := by
+  obtain ⟨pre, c, k, i, post, h1, h2, h3⟩ := h
+  exact ⟨pre, c, k, i, post ++ l, by rw [h1]; simp, h2, h3⟩
+
+/-- `blind` is set only by such an operation (or the process died while executing it) -/
+structure BlindInv (s : State) : Prop where
+  tr : TraceInv s
+  vis : s.blind = true → s.dead = true ∨ BlindInTrace s.out
+
+theorem blindInv_applyOp (s : State) (c : Nat) (k : OpKind) (h : BlindInv s) : BlindInv (applyOp s c k) := by
+  refine ⟨traceInv_applyOp s c k h.tr, ?_⟩
+  rcases applyOp_cases s c k with ⟨_, h1⟩ | ⟨_, _, h1⟩ | ⟨hd, _, h1⟩
+  · rw [h1]; exact h.vis
+  · rw [h1]
+    intro hb
+    rcases h.vis hb with h2 | h2
+    · exact .inl h2
+    · exact .inr (h2.append _)
+  · intro hb
+    obtain ⟨l, hlb, halive, _⟩ := h1.out
+    cases hd' : (applyOp s c k).dead with
+    | true => exact .inl rfl
+    | false =>
+      right
+      rw [(halive hd').2]
+      rw [h1.blind, Bool.or_eq_true] at hb
+      rcases hb with hb | hb
+      · rcases h.vis hb with h2 | h2
+        · rw [hd] at h2; exact absurd h2 (by simp)
+        · rw [List.append_assoc]; exact h2.append _
+      · rw [Bool.and_eq_true] at hb
+        obtain ⟨hk, hbu⟩ := hb
+        have hbu' : (s.chans c).added = false ∧ newEvents k (s.chans c).events = 0 := by
+          simp only [blindUpdate, isNoneEvent, kNoneEvent] at hbu
+          exact of_decide_eq_true hbu
+        refine ⟨s.out ++ l, c, k, ((applyOp s c k).chans c).index, [], ?_, hk, ?_⟩
+        · have hev : ((applyOp s c k).chans c).events = 0 := by
+            rw [h1.ev c, if_pos rfl]
+            cases k <;> simp_all [opEvents, OpKind.isUpdate]
+          rw [hev]
+        · rw [histAdded_append_noop c _ _ (fun e he => isBack_notOp (hlb e he)), ← h.tr.added hd c]
+          exact hbu'.1
+
+theorem blindInv_run (be : Backend) (ins : List In) : BlindInv (run (init be) ins) := by
+  refine ReachF.preserves (P := BlindInv) blindInv_applyOp ?_ ?_ (reach_run ins _)
+    ⟨traceInv_init be, fun hb => by cases be <;> exact absurd hb (by decide)⟩
+  · intro s t f h
+    refine ⟨traceInv_frame s t f h.tr, fun hb => ?_⟩
+    obtain ⟨l, hl, _, _⟩ := f.out
+    rw [f.blind] at hb
+    rcases h.vis hb with h2 | h2
+    · cases hd : t.dead with
+      | true => exact .inl rfl
+      | false => rw [f.dead hd] at h2; exact absurd h2 (by simp)
+    · rw [hl]; exact .inr (h2.append l)
+  · intro s t q h
+    refine ⟨traceInv_cb s t q h.tr, fun hb => ?_⟩
+    obtain ⟨c, k, hd, _, _, rfl⟩ := q
+    rcases h.vis hb with h2 | h2
+    · rw [hd] at h2; exact absurd h2 (by simp)
+    · exact .inr (h2.append _)
+
 end MuduoVerif.Poller
